@@ -84,6 +84,10 @@ def main():
         sh("git -C /repo checkout -- .")
     meta["checks_fired"] = fired
     meta["caught_by_own_property"] = prop in fired
+    sys.path.insert(0, os.path.dirname(os.path.abspath(__file__)))
+    from seed_refresh import caught_by
+
+    meta["caught_by"] = caught_by(prop, fired)
     # 3. store
     d = os.path.join(VERIF, "seeded", name)
     os.makedirs(d, exist_ok=True)
